@@ -8,3 +8,5 @@ import SoxrModel.Properties.C03
 #print axioms Soxr.Properties.C03.margOf_nonneg
 #print axioms Soxr.Properties.C03.never_early
 #print axioms Soxr.Properties.C03.never_early_round
+#print axioms Soxr.Properties.C03.offset_marg_nonneg
+#print axioms Soxr.Properties.C03.never_early_any_phase
